@@ -83,7 +83,7 @@ def run(ctx):
                     c.ob("R2", False, f, f"queue-op:{w.op}",
                          f"'{stmt_text(w.node)}' removes or reorders accepted events other than by the consumer's FIFO dequeue "
                          f"(accepted events are lost)", w.node)
-    c.floor("R2", "operations on the event queue", n_ops, 8)
+    c.floor("R2", "operations on the event queue", n_ops, 5)
     # the sync bound must count a self-feeding chain, not every dequeued event
     # ---- R3 single consumer (async) ------------------------------------------------
     r = roles(ctx, "Interpreter")
@@ -127,10 +127,14 @@ def run(ctx):
         c.need(deq, f"dequeue in {dr.short}")
         # calls that lead to _process_event / the settle loop
         def leads_to(target):
+            # same-object call chains only (a child actor's start() also settles, but that is another interpreter)
             out = []
             for s in res.callsites(dr, v):
+                if s.recv not in ("self", "name"):
+                    continue
                 for t in s.targets:
-                    if t.qualname == target.qualname or target.qualname in res.closure([t], v, stop={r.send.qualname}, include_closures=False):
+                    if t.qualname == target.qualname or (t.qualname != r.process_event.qualname and
+                                                         target.qualname in _consumer_helper_closure(res, v, t, r)):
                         out.extend(cfg_node_of(dr, s.call))
             return out
         proc = leads_to(r.process_event)
@@ -203,3 +207,13 @@ def run(ctx):
              f"never processed (its sender returned at the re-entrancy test): lost wake-up", resets[0] if resets else dr.node)
     else:
         c.ob("R6", True, dr, "no-thread-reaches-drain", "no thread entry point reaches the drain loop", dr.node)
+
+
+def _consumer_helper_closure(res, v, t, r):
+    """Functions a consumer helper (e.g. _process_event_and_transient_transitions) calls directly on self."""
+    out = set()
+    for s in res.callsites(t, v):
+        if s.recv == "self":
+            for x in s.targets:
+                out.add(x.qualname)
+    return out
